@@ -25,5 +25,6 @@ for d in seeded/*/ mutants/*/; do
     revert-fix5) p=C10;; revert-fix6) p="C14 C09";; revert-fix7) p=C09;; revert-fix8) p=C09;; revert-fix9) p="C15 C02";;
     *) continue;;
   esac
+  if [ -n "$ONLY" ] && ! [[ $n =~ $ONLY ]]; then continue; fi   # ONLY=<regex over change names>: rerun a subset (mkmatrix.py merges it into seeded/RESULTS.raw)
   for q in $p; do echo "$n $q $T"; done
-done | xargs -P ${JOBS:-5} -L 1 tools/seedrun.sh 2>&1 | grep " vs C" | cut -c1-260 | sort
+done | xargs -P ${JOBS:-5} -L 1 timeout 1500 tools/seedrun.sh 2>&1 | grep " vs C" | cut -c1-260 | sort
